@@ -1,6 +1,6 @@
 SPECIFICATION Spec
 CONSTANTS
-  MaxRepeat = 2
-  MaxDepth = 11
+  MaxRepeat = 4
+  MaxDepth = 16
   Want = {"ns", "sa"}
 CHECK_DEADLOCK FALSE
